@@ -25,7 +25,7 @@ func (c12) Rule() string {
 }
 func (c12) Assumptions() []string {
 	return []string{
-		"HOME is set; Windows path strings are exercised on Linux; a relative working directory is not exercised (the worker does not chdir)",
+		"HOME is set (to one of three directories in turn, per case with a ~ path); Windows path strings are exercised on Linux; a relative working directory is not exercised (the worker does not chdir)",
 		"URL-like shapes are asserted for build contexts only; for other attributes they are ordinary relative paths by the statement",
 	}
 }
@@ -255,7 +255,24 @@ func c12remotes(c *core.Ctx) {
 	}
 }
 
+// c12homeSeq alternates the home directory between cases: `~` is the home directory of the moment, not of the first load
+var c12homeSeq int
+
 func c12case(id string, a c12attr, sh c12shape, origin, wd string, resolve bool, home string) core.Outcome {
+	if sh.kind == "home" {
+		c12homeSeq++
+		home = filepath.Join(Scratch(), fmt.Sprintf("home%d", c12homeSeq%3))
+		os.MkdirAll(home, 0o755)
+		prev, had := os.LookupEnv("HOME")
+		os.Setenv("HOME", home)
+		defer func() {
+			if had {
+				os.Setenv("HOME", prev)
+			} else {
+				os.Unsetenv("HOME")
+			}
+		}()
+	}
 	body, top := a.doc(sh.v)
 	svcDoc := "services:\n  s:\n" + body + top
 	files := map[string]string{}
